@@ -859,3 +859,158 @@ Proof.
   { apply (from_string_up content t root _ Ht). now apply (from_string_up content pr t _ Hpr). }
   exact (string_vinfo_structural content root name (v, s, e, l, c) Hwf Hs Hroot).
 Qed.
+
+(* ================= pyproject.toml ================= *)
+Lemma tstep_array content sb eb kids : denote_tstep content tk_array sb eb false kids =
+  match tvals_of kids with Some l => TDVal (TArr l) | None => TDBad end.
+Proof. reflexivity. Qed.
+Lemma tvals_cons content x t l : tvals_of (tkids_of content (x :: t)) = Some l ->
+  (exists v l', denote_tnode content x = TDVal v /\ tvals_of (tkids_of content t) = Some l' /\ l = v :: l')
+  \/ (denote_tnode content x = TDTok /\ tvals_of (tkids_of content t) = Some l).
+Proof.
+  cbn [tkids_of map tvals_of fold_right snd]. fold (tkids_of content t). fold (tvals_of (tkids_of content t)).
+  destruct (denote_tnode content x) eqn:Ex; try discriminate.
+  - destruct (tvals_of (tkids_of content t)) as [l'|]; [|discriminate]. intros H. injection H as <-. left. exists v, l'. repeat split.
+  - destruct (tvals_of (tkids_of content t)) as [l'|]; [|discriminate]. intros H. injection H as <-. right. split; reflexivity.
+Qed.
+Lemma val_node_array content c v : denote_tnode content c = TDVal v ->
+  kind_is k_array c = match v with TArr _ => true | _ => false end.
+Proof.
+  intros H. pose proof (tnode_shape content c) as S. rewrite H in S. cbn [shape_of] in S. unfold kind_is.
+  destruct v as [s| |l|l]; try (rewrite S; reflexivity).
+  destruct (scalar_not_walk_kind _ S) as [_ [_ [_ [_ [_ [_ H7]]]]]]. exact H7.
+Qed.
+Lemma trim_squoted inner : trim (39 :: inner ++ [39]) = 39 :: inner ++ [39].
+Proof.
+  unfold trim. assert (trim_start (39 :: inner ++ [39]) = 39 :: inner ++ [39]) as ->.
+  { unfold trim_start. cbn [length trim_start_fuel]. reflexivity. }
+  unfold trim_end. assert (rev (39 :: inner ++ [39]) = 39 :: rev inner ++ [39]) as Hr.
+  { cbn [rev]. rewrite rev_app_distr. reflexivity. }
+  rewrite Hr. cbn [length trim_start_with]. assert (strip_any ws_seqs_rev (39 :: rev inner ++ [39]) = None) as -> by reflexivity.
+  rewrite <- Hr. now rewrite rev_involutive.
+Qed.
+Lemma slice_whole (t : bytes) : slice t 0 (blen t) = Some t.
+Proof.
+  unfold slice, firstn_N, skipn_N. rewrite N.leb_refl. cbn [N.leb andb]. assert (0 <=? blen t = true) as -> by (apply N.leb_le; lia).
+  cbn [andb N.to_nat skipn]. f_equal. rewrite N.sub_0_r. unfold blen. rewrite Nat2N.id. apply firstn_all.
+Qed.
+Lemma strip_outer_quoted q inner : q = 34 \/ q = 39 -> strip_outer_quotes (q :: inner ++ [q]) = Some inner.
+Proof.
+  intros Hq. unfold strip_outer_quotes.
+  assert ((starts_with [34] (q :: inner ++ [q]) && ends_with [34] (q :: inner ++ [q])) || (starts_with [39] (q :: inner ++ [q]) && ends_with [39] (q :: inner ++ [q])) = true) as ->.
+  { unfold ends_with. assert (rev (q :: inner ++ [q]) = q :: rev inner ++ [q]) as -> by (cbn [rev]; rewrite rev_app_distr; reflexivity).
+    destruct Hq as [-> | ->]; reflexivity. }
+  pose proof (slice_inner (q :: inner ++ [q]) 0 (blen (q :: inner ++ [q])) q q inner (slice_whole _)) as H. exact H.
+Qed.
+
+Section PyprojectProofs.
+Variable pep508 : bytes -> pep.
+Hypothesis no_panic : forall s, pep508 s <> PepPanic.
+Definition preq (s : bytes) : option (bytes * bytes) := match pep508 s with PepSpec n sp => Some (n, sp) | _ => None end.
+
+Lemma py_string_dep content c s : n_kind c = tk_string -> denote_tnode content c = TDVal (TStr s) -> plain_pyproject content c = true ->
+  exists pkgs, bind (node_text content c) (fun text => bind (strip_outer_quotes (trim text)) (fun dep => py_dep pep508 content dep c)) = Some pkgs
+  /\ map nv pkgs = req_of preq (TStr s).
+Proof.
+  destruct c as [k f sb eb r cc m ch]. cbn [n_kind]. intros -> Hd Hp.
+  rewrite denote_tnode_eq in Hd. rewrite plain_toml_eq in Hp. apply andb_true_iff in Hp as [Hp _].
+  destruct m; [discriminate|]. rewrite tstep_string in Hd. unfold node_text. cbn [n_sb n_eb].
+  assert (plain_here true content tk_string sb eb = match slice content sb eb with
+    | Some t => match quoted_inner 34 t with
+                | Some inner => no_byte 34 inner && no_byte 92 inner && no_byte 10 inner
+                | None => match quoted_inner 39 t with Some inner => no_byte 39 inner && no_byte 10 inner | None => false end
+                end
+    | None => false end) as Eph by reflexivity.
+  rewrite Eph in Hp. clear Eph.
+  destruct (slice content sb eb) as [text|] eqn:Es; [|discriminate]. cbn [bind].
+  assert (exists q inner, (q = 34 \/ q = 39) /\ text = q :: inner ++ [q] /\ s = inner) as [q [inner [Hq [-> ->]]]].
+  { unfold denote_toml_string in Hd. destruct (quoted_inner 34 text) as [inner|] eqn:E34.
+    - rewrite Hp in Hd. injection Hd as <-. exists 34, inner. split; [now left|]. split; [now apply quoted_inner_spec|reflexivity].
+    - destruct (quoted_inner 39 text) as [inner|] eqn:E39; [|discriminate]. rewrite Hp in Hd. injection Hd as <-.
+      exists 39, inner. split; [now right|]. split; [now apply quoted_inner_spec|reflexivity]. }
+  assert (trim (q :: inner ++ [q]) = q :: inner ++ [q]) as -> by (destruct Hq as [-> | ->]; [apply trim_quoted|apply trim_squoted]).
+  rewrite (strip_outer_quoted q inner Hq). cbn [bind]. unfold py_dep, req_of, preq.
+  pose proof (slice_length _ _ _ _ Es) as Hlen.
+  assert (blen (q :: inner ++ [q]) = blen inner + 2) as Hl2 by (unfold blen; cbn [length]; rewrite app_length; cbn [length]; lia).
+  destruct (pep508 inner) as [| | |name spec] eqn:Ep.
+  - exists []. split; reflexivity.
+  - exfalso. exact (no_panic inner Ep).
+  - exists []. split; reflexivity.
+  - unfold node_text. cbn [n_sb n_eb n_row n_col]. rewrite Es. cbn [bind]. unfold pred_N.
+    destruct (eb =? 0) eqn:E0; [apply N.eqb_eq in E0; lia|]. cbn [bind].
+    match goal with |- context [let '(s0, e0) := ?X in _] => destruct X as [s0 e0] end.
+    eexists. split; [reflexivity|]. reflexivity.
+Qed.
+Lemma py_array_children content ch : forall vs, tvals_of (tkids_of content ch) = Some vs -> forallb (plain_pyproject content) ch = true ->
+  exists pkgs, concat_opt (fun c => if negb (kind_is k_string c) then Some [] else
+                         bind (node_text content c) (fun text => bind (strip_outer_quotes (trim text)) (fun dep => py_dep pep508 content dep c))) ch = Some pkgs
+  /\ map nv pkgs = flat_map (req_of preq) vs.
+Proof.
+  induction ch as [|x t IH]; intros vs Hv Hp.
+  - cbn in Hv. injection Hv as <-. exists []. split; reflexivity.
+  - cbn [forallb] in Hp. apply andb_true_iff in Hp as [Px Pt].
+    destruct (tvals_cons _ _ _ _ Hv) as [[v [l' [Dx [Hl' ->]]]]|[Dx Hl']].
+    + destruct (IH l' Hl' Pt) as [p2 [E2 M2]]. cbn [concat_opt]. rewrite E2.
+      destruct (val_node_kind _ _ _ Dx) as [_ [_ [_ Vk]]]. unfold kind_is at 1.
+      destruct v as [s| |l|l].
+      * rewrite Vk. change (beq tk_string k_string) with true. cbn [negb].
+        destruct (py_string_dep _ _ _ Vk Dx Px) as [p1 [E1 M1]]. rewrite E1. exists (p1 ++ p2). split; [reflexivity|].
+        rewrite map_app, M1, M2. reflexivity.
+      * destruct Vk as [V1 _]. rewrite V1. cbn [negb]. exists p2. split; [reflexivity|exact M2].
+      * destruct Vk as [V1 _]. rewrite V1. cbn [negb]. exists p2. split; [reflexivity|exact M2].
+      * rewrite Vk. change (beq tk_inline_table k_string) with false. cbn [negb]. exists p2. split; [reflexivity|exact M2].
+    + destruct (IH vs Hl' Pt) as [p2 [E2 M2]]. cbn [concat_opt]. rewrite E2. destruct (tok_node _ _ Dx) as [_ [_ [Ks _]]].
+      unfold kind_is at 1. rewrite Ks. cbn [negb]. exists p2. split; [reflexivity|exact M2].
+Qed.
+Lemma py_array_spec content arr vs : denote_tnode content arr = TDVal (TArr vs) -> plain_pyproject content arr = true ->
+  exists pkgs, py_array pep508 content arr = Some pkgs /\ map nv pkgs = flat_map (req_of preq) vs.
+Proof.
+  intros H Hp. pose proof (tnode_shape content arr) as S. rewrite H in S. cbn [shape_of] in S.
+  destruct arr as [kd f sb eb r c m ch]. cbn [n_kind] in S. subst kd. rewrite denote_tnode_eq in H. rewrite plain_toml_eq in Hp.
+  apply andb_true_iff in Hp as [_ Hp]. destruct m; [discriminate|]. rewrite tstep_array in H.
+  destruct (tvals_of (tkids_of content ch)) as [l|] eqn:El; [|discriminate]. injection H as <-.
+  unfold py_array. cbn [n_children]. exact (py_array_children content ch l El Hp).
+Qed.
+Lemma py_scan_toks content key rest b : Forall (fun c => denote_tnode content c = TDTok) rest -> py_key_scan pep508 content key rest b = Some [].
+Proof.
+  induction 1 as [|x t Hx _ IH]; [reflexivity|]. cbn [py_key_scan]. destruct (tok_node _ _ Hx) as [H1 [_ [_ [_ [_ [_ H7]]]]]].
+  unfold kind_is. rewrite H1, H7. cbn [andb]. exact IH.
+Qed.
+Lemma py_all_toks content rest : Forall (fun c => denote_tnode content c = TDTok) rest ->
+  concat_opt (fun c => if kind_is k_array c then py_array pep508 content c else Some []) rest = Some [].
+Proof.
+  induction 1 as [|x t Hx _ IH]; [reflexivity|]. cbn [concat_opt]. destruct (tok_node _ _ Hx) as [_ [_ [_ [_ [_ [_ H7]]]]]].
+  unfold kind_is at 1. rewrite H7, IH. reflexivity.
+Qed.
+Lemma py_pair content key p k v : denote_tnode content p = TDPair k v -> plain_pyproject content p = true ->
+  (exists pkgs, py_key_scan pep508 content key (n_children p) false = Some pkgs
+                /\ map nv pkgs = (if path_eqb k [key] then array_reqs preq v else []))
+  /\ (exists pkgs, concat_opt (fun c => if kind_is k_array c then py_array pep508 content c else Some []) (n_children p) = Some pkgs
+                   /\ map nv pkgs = array_reqs preq v).
+Proof.
+  intros H Hp. destruct (pair_inv _ _ _ _ H) as [Hk [kn [en [vn [rest [Hch [Dk [De [Ee [Dv Dr]]]]]]]]]].
+  rewrite Hch. assert (plain_pyproject content kn = true) as Pk by (apply (plain_toml_child _ content p); [exact Hp|rewrite Hch; now left]).
+  assert (plain_pyproject content vn = true) as Pv by (apply (plain_toml_child _ content p); [exact Hp|rewrite Hch; right; right; now left]).
+  destruct (key_node _ _ _ _ Dk Pk) as [text [Ht [Hsp [Hne Hkind]]]].
+  destruct (tok_node _ _ De) as [Eb [_ [_ [_ [_ [_ Ea]]]]]].
+  destruct (val_node_kind _ _ _ Dv) as [Vb _]. pose proof (val_node_array _ _ _ Dv) as Va.
+  assert (kind_is k_array kn = false) as Ka by (unfold kind_is; destruct Hkind as [[K _]|[K _]]; rewrite K; reflexivity).
+  unfold kind_is in Ka, Va.
+  split.
+  - cbn [py_key_scan]. unfold kind_is. rewrite Eb, Ea, Vb, Va, Ka. cbn [andb]. repeat rewrite (py_scan_toks _ _ _ _ Dr).
+    destruct Hkind as [[Kb ->]|[Kd Hl]].
+    + rewrite Kb. change (beq tk_bare_key k_bare_key) with true. cbv iota. rewrite Ht. cbn [bind].
+      cbn [path_eqb list_eqb]. rewrite andb_true_r.
+      destruct v as [s| |vs|m]; cbn [andb array_reqs]; try (repeat rewrite (py_scan_toks _ _ _ _ Dr); exists []; split; [reflexivity|now destruct (beq text key)]).
+      destruct (beq text key); cbn [andb].
+      * destruct (py_array_spec _ _ _ Dv Pv) as [p1 [E1 M1]]. rewrite E1. repeat rewrite (py_scan_toks _ _ _ _ Dr). exists (p1 ++ []). split; [reflexivity|].
+        rewrite app_nil_r. exact M1.
+      * repeat rewrite (py_scan_toks _ _ _ _ Dr). exists []. split; reflexivity.
+    + rewrite Kd. change (beq tk_dotted_key k_bare_key) with false. cbv iota. rewrite andb_false_r.
+      repeat rewrite (py_scan_toks _ _ _ _ Dr). exists []. split; [reflexivity|].
+      destruct k as [|a [|b r]]; cbn [length] in Hl; try lia. cbn [path_eqb list_eqb]. now rewrite andb_false_r.
+  - cbn [concat_opt]. fold (kind_is k_array kn) in Ka. fold (kind_is k_array en) in Ea. fold (kind_is k_array vn) in Va. rewrite Ka, Ea, Va. rewrite (py_all_toks _ _ Dr).
+    destruct v as [s| |vs|m]; cbn [array_reqs]; try (exists []; split; reflexivity).
+    destruct (py_array_spec _ _ _ Dv Pv) as [p1 [E1 M1]]. rewrite E1. exists (p1 ++ []). split; [reflexivity|]. rewrite app_nil_r. exact M1.
+Qed.
+End PyprojectProofs.
